@@ -320,7 +320,7 @@ class ProgGen:
             a.push(0x24).push(0).op("REVERT")
         else:
             off = ch.choose([0, 0x80, 0x60, 0x1F], lbl + ".ro")
-            size = ch.choose([0x40, 0, 1, 0x20, 0x60, 100], lbl + ".rs")
+            size = ch.choose([0x40, 0, 1, 0x20, 0x60, 100, 4, 0x21], lbl + ".rs")
             a.push(size).push(off).op(ch.choose(["RETURN", "REVERT"], lbl + ".rr"))
 
     def stmt(self, bdepth, lbl):
@@ -556,6 +556,10 @@ class ProgGen:
             self.expr(1, lbl + f"a{i}")
             a.push(0x80 + 32 * i).op("MSTORE")
         rsz = ch.choose([0x20, 0, 0x40, 1], lbl + ".rsz")
+        # the output area of a call receives min(ret_size, RETURNDATASIZE) bytes; what lies behind them stays as it was
+        area_check = ch.chance(0.3, lbl + ".area")
+        if area_check:
+            a.push(M256).push(0xC0).op("MSTORE").push(M256 - 1).push(0xE0).op("MSTORE")
         a.push(rsz).push(0xC0).push(32 * n).push(0x80)
         if kind in ("CALL", "CALLCODE"):
             if f.value_calls and ch.chance(0.4, lbl + ".val"):
@@ -578,6 +582,13 @@ class ProgGen:
         else:
             a.push(ch.choose([0xFFFF, 0, 100000], lbl + ".gasc"))
         a.op(kind)
+        if area_check:
+            # (flag on the stack) fold both words of the output area into one observable word
+            a.push(0xE0).op("MLOAD").push(0xC0).op("MLOAD").op("XOR")
+            if f.storage:
+                a.push(6).op("SSTORE")
+            else:
+                a.push(0x120).op("MSTORE")
         # observe success flag and returndata
         k = ch.pick(4, lbl + ".obs")
         if k == 0:
